@@ -64,7 +64,7 @@ def write_overrides(d, j, ov, yv="N"):
     with open(os.path.join(od, ".falco.yml"), "w") as f:
         f.write("linter:\n")
         if yv != "N":
-            f.write("  verbose: %s\n" % {"W": "warning", "I": "info", "O": "debug"}[yv])
+            f.write("  verbose: %s\n" % YAML_VERBOSE[yv])
         if ov:
             f.write("  rules:\n")
             for k, w in ov:
@@ -75,6 +75,7 @@ def write_overrides(d, j, ov, yv="N"):
 
 
 FLAG_ARGS = {"J": "-json", "V": "-v", "VV": "-vv"}
+YAML_VERBOSE = {"W": "warning", "I": "info", "O": "debug"}
 
 
 def run_falco(job):
@@ -320,7 +321,8 @@ def run(ctx):
     for (i, j, ov, yv, flags) in meta:
         pm, pi, diags = inputs[i]
         mreq.append("(cfgof %s (%s) (%s)) (in %d %d (%s))" % (
-            yv, " ".join(flags), " ".join("(%s %s)" % (hx(k), hx(w)) for k, w in ov),
+            "N" if yv == "N" else hx(YAML_VERBOSE[yv]), " ".join(hx(FLAG_ARGS[f].lstrip("-")) for f in flags),
+            " ".join("(%s %s)" % (hx(k), hx(w)) for k, w in ov),
             1 if pm else 0, 1 if pi else 0, " ".join("(%s %s %s)" % (hx(r), hx(sv), hx(fn)) for r, sv, fn in raws[i])))
     mrep = V.run_batch([model], mreq, hang_s=30)
 
